@@ -26,10 +26,14 @@ deriving DecidableEq, Repr
 def ctor (pfx command : Str) (args : List Str) (tags : C05.Tags) : Built :=
   if args.all validArg then .ok ⟨pfx, command, args, tags⟩ else .assertFail
 
-/-- `IrcMsg(msg=base, prefix=…, command=…, args=…)`: fields given override, nothing is checked -/
-def ctorCopy (base : C05.Msg) (pfx command : Str) (args : List Str) : C05.Msg :=
-  ⟨if pfx = [] then base.pfx else pfx, if command = [] then base.command else command,
-   if args = [] then base.args else args, base.tags⟩
+/-- `IrcMsg(msg=base, prefix=…, command=…, args=…)`: fields given override; given `args` are checked
+like in the plain form (since the fix of the `msg=` branch) -/
+def ctorCopy (base : C05.Msg) (pfx command : Str) (args : List Str) : Built :=
+  if args = [] then
+    .ok ⟨if pfx = [] then base.pfx else pfx, if command = [] then base.command else command, base.args, base.tags⟩
+  else if args.all validArg then
+    .ok ⟨if pfx = [] then base.pfx else pfx, if command = [] then base.command else command, args, base.tags⟩
+  else .assertFail
 
 def privmsg (target s : Str) : Built := ctor [] "PRIVMSG".toList [target, s] []
 def notice (target s : Str) : Built := ctor [] "NOTICE".toList [target, s] []
